@@ -33,11 +33,11 @@ var grammar = map[string][]rule{
 	"moof": {{"mfhd", 1, 1, 0}, {"pssh", 0, 2, 15}, {"traf", 0, 3, 85}},
 	"traf": {{"tfhd", 1, 1, 0}, {"tfdt", 0, 1, 80}, {"trun", 0, 3, 70}, {"sbgp", 0, 2, 20}, {"sgpd", 0, 2, 20},
 		{"subs", 0, 1, 10}, {"saiz", 0, 1, 25}, {"saio", 0, 1, 25}, {"senc", 0, 1, 25}, {"uuid", 0, 2, 15}},
-	"mfra": {{"tfra", 0, 3, 70}, {"mfro", 1, 1, 0}},
-	"udta": {{"meta", 0, 1, 40}, {"kind", 0, 2, 25}, {"ludt", 0, 1, 20}, {"cdat", 0, 1, 10}, {"name|titl|cprt", 0, 1, 15}},
-	"ludt": {{"tlou", 0, 2, 60}, {"alou", 0, 2, 40}},
-	"meta": {{"hdlr", 1, 1, 0}, {"ilst", 0, 1, 60}, {"ID32", 0, 2, 20}, {"dinf", 0, 1, 10}},
-	"ilst": {{"\xa9nam|\xa9too|\xa9ART|\xa9cpy|\xa9alb|desc", 0, 4, 60}},
+	"mfra":    {{"tfra", 0, 3, 70}, {"mfro", 1, 1, 0}},
+	"udta":    {{"meta", 0, 1, 40}, {"kind", 0, 2, 25}, {"ludt", 0, 1, 20}, {"cdat", 0, 1, 10}, {"name|titl|cprt", 0, 1, 15}},
+	"ludt":    {{"tlou", 0, 2, 60}, {"alou", 0, 2, 40}},
+	"meta":    {{"hdlr", 1, 1, 0}, {"ilst", 0, 1, 60}, {"ID32", 0, 2, 20}, {"dinf", 0, 1, 10}},
+	"ilst":    {{"\xa9nam|\xa9too|\xa9ART|\xa9cpy|\xa9alb|desc", 0, 4, 60}},
 	"\xa9nam": {{"data", 1, 1, 0}},
 	"\xa9too": {{"data", 1, 1, 0}},
 	"\xa9ART": {{"data", 1, 1, 0}},
